@@ -137,8 +137,10 @@ type span struct{ a, b int }
 // writes fail, reads keep blocking, so the server only learns about it when it writes.
 type srvConn struct {
 	net.Conn
-	dead   int32
-	failed int32 // a write was attempted after the connection died
+	dead     int32
+	failed   int32 // a write was attempted after the connection died
+	errMu    sync.Mutex
+	writeErr string // the first error a real write returned (diagnostics)
 }
 
 var errDead = fmt.Errorf("write: connection is dead (harness)")
@@ -148,7 +150,21 @@ func (s *srvConn) Write(b []byte) (int, error) {
 		atomic.StoreInt32(&s.failed, 1)
 		return 0, errDead
 	}
-	return s.Conn.Write(b)
+	n, err := s.Conn.Write(b)
+	if err != nil {
+		s.errMu.Lock()
+		if s.writeErr == "" {
+			s.writeErr = err.Error()
+		}
+		s.errMu.Unlock()
+	}
+	return n, err
+}
+
+func (s *srvConn) firstWriteErr() string {
+	s.errMu.Lock()
+	defer s.errMu.Unlock()
+	return s.writeErr
 }
 
 type client struct {
@@ -234,10 +250,18 @@ func (c *client) command(d time.Duration, args ...[]byte) error {
 	}
 	c.sent++
 	if !c.waitReplies(c.sent, d) {
+		c.mu.Lock()
+		eof := c.eof
+		c.mu.Unlock()
+		if eof {
+			return errServerClosed
+		}
 		return fmt.Errorf("no reply within %v", d)
 	}
 	return nil
 }
+
+var errServerClosed = fmt.Errorf("the server closed the connection before replying")
 
 // barrier: an unknown command; its error reply is written after everything the server wrote to
 // this connection before, so once it is read nothing earlier is still in flight.
